@@ -110,6 +110,43 @@ def obligations(tier, seed):
         for i in range(24):
             a = rnd.choice(reqs4)
             obs.append(history_ob(4, [(a[0], a[1], False, rnd.randrange(3))], f"k2.M4.{i}", timeout=600))
+    # list operands in which a module may appear more than once and `~` marks individual entries:
+    # pairs are processed in order (a later plain entry re-connects what an earlier ~entry disconnected)
+    body = """
+    p = Project()
+    mods = [p.output] + [p.new_module(MODULE_CLASSES["Amplifier"]) for _ in range(2)]
+    E = set()
+    request(p, mods, E, PF, PT, False, 0)
+    if not good(p, E):
+        return False
+    src = mods[s_]
+    ent = [(e0, d0), (e1, d1), (e2, d2)][:n]
+    lst = [(~mods[e]) if d else mods[e] for e, d in ent]
+    if form == 0:
+        p.connect(src, lst)
+    elif form == 1:
+        src >> lst
+    else:
+        # the list on the source side
+        p.connect(lst, src)
+    for e, d in ent:
+        pair = (src.index, mods[e].index) if form < 2 else (mods[e].index, src.index)
+        if d:
+            E.discard(pair)
+        else:
+            E.add(pair)
+    return good(p, E)
+"""
+    for n_, form_ in ((2, 0), (2, 1), (2, 2), (3, 0), (3, 1)):
+        for rep in range(1 if tier == "quick" else 4):
+            pf_, pt_ = rnd.choice([(2, 4), (6, 7), (2, 5), (7, 7), (4, 3)])
+            ents = [R("e0", 0, 2), B("d0"), R("e1", 0, 2), B("d1")] + ([R("e2", 0, 2), B("d2")] if n_ == 3 else [])
+            obs.append(Ob(f"mixed.n{n_}.f{form_}.{rep}", build([R("s_", 0, 2)] + ents,
+                                                     body.replace("[:n]", f"[:{n_}]").replace("(e2, d2)", "(e2, d2)" if n_ == 3 else "(0, False)").replace("if form == 0", f"form = {form_}\n    if form == 0"),
+                                                     setup=SETUP + f"PF, PT = {pf_}, {pt_}\n"),
+                          "a list operand with repeated modules and individually ~-marked entries is processed pair by pair in order; tables stay consistent and the edge set is what the sequence asks for",
+                          group="mixed", shape=f"M=3; seeded prefix request (source mask {pf_}, target mask {pt_}); list of {n_} entries; form {['connect(src, list)', 'src >> list', 'connect(list, src)'][form_]}",
+                          symbolic="source module, each list entry (module, ~ or not)", timeout=400))
     # cross-project operands are refused and change nothing
     body = """
     p = Project()
